@@ -92,6 +92,19 @@ func vfNativePeer(server net.Conn, hops []vfHop, reply func(r *http.Request) []b
 	conn := server
 	for _, h := range hops {
 		if h.tls {
+			// a TLS ClientHello starts with record type 0x16: anything else arriving here
+			// (e.g. "GET ...") is handshake traffic sent outside TLS
+			pc := &vfPeekConn{Conn: conn}
+			first := make([]byte, 1)
+			if n, _ := conn.Read(first); n == 1 {
+				pc.buf = first
+				if first[0] != 0x16 {
+					vfTLSMu.Lock()
+					vfPlainSeen = true
+					vfTLSMu.Unlock()
+				}
+			}
+			conn = pc
 			ts := tls.Server(conn, &tls.Config{Certificates: []tls.Certificate{vfLeaf(h.name, h.trusted)}, Rand: vfRealRand})
 			if err := ts.Handshake(); err != nil {
 				server.Close()
@@ -152,4 +165,22 @@ func vfNativePeer(server net.Conn, hops []vfHop, reply func(r *http.Request) []b
 			return
 		}
 	}
+}
+
+// vfPlainSeen: a native TLS peer received something other than a TLS record
+// where the ClientHello was due.
+var vfPlainSeen bool
+
+type vfPeekConn struct {
+	net.Conn
+	buf []byte
+}
+
+func (c *vfPeekConn) Read(p []byte) (int, error) {
+	if len(c.buf) > 0 && len(p) > 0 {
+		n := copy(p, c.buf)
+		c.buf = c.buf[n:]
+		return n, nil
+	}
+	return c.Conn.Read(p)
 }
